@@ -120,6 +120,35 @@ def main(chk):
             ev["id"] = len(events) + 1
             events.append(ev)
             chk.count("deep_runs")
+    # real binary floats (the model's numbers are exact): schemas pinned to decimal ties or bounded
+    # off the precision grid; the stand-in abstract schema only tells the trace spec that the case
+    # is satisfiable, which is established here on the real schema first
+    dummy = {"t": "float", "value": [deep.VFloat(0)], "min": [], "max": [], "precision": []}
+    import d42 as _d42
+    for text, real in deep.real_float_schemas():
+        pinned = real.props.get("value")
+        from niltype import Nil
+        witness = pinned if pinned is not Nil else None
+        for tape in (["lo"], ["hi"], ["lo1"], ["hi1"], []):
+            if tape:
+                exc, val = valgen.real_fake(real, tape)
+            else:
+                exc, val = "", None
+                try:
+                    val = _d42.fake(real)
+                except Exception as e:  # noqa
+                    exc = type(e).__name__
+            if witness is not None and _d42.validate(real, witness).has_errors():
+                continue                       # the pinned value does not conform itself: not this property's subject
+            if exc and witness is None:
+                continue                       # a bounded schema whose grid is empty: the open precision-grid finding
+            ev = {"s": dummy, "tape": [], "exc": exc, "vok": True, "rep": False, "v": [], "repr": text}
+            if not exc:
+                ev["vok"] = not _d42.validate(real, val).has_errors()
+                ev["vrepr"] = safe_repr(val)
+            ev["id"] = len(events) + 1
+            events.append(ev)
+            chk.count("real_float_runs")
     chk.require(len(events) >= 5000, "fewer than 5000 generator runs (%d)" % len(events))
     for t in ("int", "float", "str", "list", "dict", "any"):
         chk.require(chk.counts.get("runs_" + t, 0) >= 50, "too few runs for " + t)
